@@ -132,6 +132,17 @@ class HCheck:
                     else:
                         broken.append("run %s exited rc=%s without a pending case: %s" % (r["tag"], r["rc"], (r["stderr"] or r["stdout"])[-800:]))
         st.nontrivial = hashes
+        # regression tier: saved shrunk cases of earlier findings (fixed ones must stay fixed)
+        cdir = os.path.join(common.ROOT, "corpus", self.pid)
+        if os.path.isdir(cdir):
+            for fn in sorted(os.listdir(cdir)):
+                if fn.endswith(".case"):
+                    text = open(os.path.join(cdir, fn)).read()
+                    r = self.replay_text(binary, text)
+                    st.evals += 1
+                    st.classes["corpus_replayed"] += 1
+                    if r.startswith("FAIL") or r.startswith("CRASH") or r == "TIMEOUT":
+                        cands.append((text, "corpus case %s fails again: %s" % (fn, r[:300])))
         confirmed, known_hits = [], []
         seen = set()
         for text, msg in cands:
